@@ -25,8 +25,9 @@ TYPE_ID = {"cam": 2, "denm": 1, "vam": 16, "ivim": 6}
 class Rec:
     """one stored record (the dictionary AddDataProviderReq.to_dict produces) with symbolic leaves"""
 
-    def __init__(self, I, tag, body=None):
+    def __init__(self, I, tag, body=None, fixed_type=None):
         self.I, self.tag = I, tag
+        self.fixed_type = fixed_type
         self.app = I.int_var(f"{tag}_app", 0, 30)
         self.ts = I.int_var(f"{tag}_timestamp", 0, 2 ** 42)
         self.validity = I.int_var(f"{tag}_validity", 0, 10 ** 6)
@@ -52,8 +53,12 @@ class Rec:
     def make_data_object(self):
         log = [(TRUE, "header", SDict([(TRUE, "protocolVersion", 2, False), (TRUE, "messageId", 2, False), (TRUE, "stationId", self.station, False)]), False)]
         for i, name in enumerate(TYPES):
+            if self.fixed_type is not None and name != self.fixed_type:
+                continue
             inner = self.body(self, name) if self.body is not None else SDict([(TRUE, "generationDeltaTime", self.payload, False)])
-            log.append((self.type == i, name, inner, False))
+            log.append((TRUE if self.fixed_type is not None else self.type == i, name, inner, False))
+        if self.fixed_type is not None:
+            self.I.assumptions.append(self.type == TYPES.index(self.fixed_type))
         return SDict(log)
 
     def vars(self):
@@ -83,11 +88,11 @@ class Rec:
 
 
 class Ldm:
-    def __init__(self, nrec=2, reactive=False, mode="int", body=None, I=None):
+    def __init__(self, nrec=2, reactive=False, mode="int", body=None, I=None, fixed_type=None):
         self.I = I = I or make(mode)
         self.clock = Clock(I)
         I.stubs[TimeService.time] = self.clock.read
-        self.recs = [Rec(I, f"r{i + 1}", body) for i in range(nrec)]
+        self.recs = [Rec(I, f"r{i + 1}", body, fixed_type) for i in range(nrec)]
         self.keys = [I.int_var(f"id{i + 1}", 0, 10 ** 6) for i in range(nrec)]
         self.present = [z3.Bool(f"stored{i + 1}") for i in range(nrec)]
         self.next_id = I.int_var("next_id", 0, 10 ** 6 + 1)
